@@ -38,6 +38,17 @@ Fixpoint comparable_ty (t : ty) : bool :=
   end.
 
 (* reflect.Value.Comparable: deep, through interface-typed components *)
+(* toComparable (unmarshal.go): a []byte decoded into an interface position that is used as a map key
+   becomes a byte array of the same length *)
+Definition to_comparable (k : gval) : gval :=
+  match k with
+  | GAny (Some (TBytes, GBytes _ s)) => GAny (Some (TByteArray (length s), GBytes false s))
+  | k => k
+  end.
+(* the key of a typed map: converted only when the key type is an interface type *)
+Definition iface_key (kt : ty) (k : gval) : gval :=
+  match underlying kt with TAny => to_comparable k | _ => k end.
+
 Fixpoint comparable_val (v : gval) : bool :=
   match v with
   | GAny (Some (t, x)) => comparable_ty t && comparable_val x
@@ -273,10 +284,11 @@ Fixpoint unm (fuel : nat) (o : copts) (R : registry) (t : ty) (cur : gval) (ts :
            | tk :: rest =>
                if kind tk =? KMapEnd then Ok (GMap isnil m, rest)
                else bind (unm f o R kt (zero kt) ts) (fun kr =>
-                    if negb (comparable_val (fst kr)) then Err EBadMapKey    (* an unhashable value in an interface-typed key *)
+                    let key := iface_key kt (fst kr) in
+                    if negb (comparable_val key) then Err EBadMapKey    (* an unhashable value in an interface-typed key *)
                     else
                     bind (unm f o R vt (zero vt) (snd kr)) (fun vr =>
-                    map_loop g' kt vt false (map_set (fst kr) (fst vr) m) (snd vr)))
+                    map_loop g' kt vt false (map_set key (fst vr) m) (snd vr)))
            end
          end) in
     let genmap_loop :=
@@ -290,10 +302,7 @@ Fixpoint unm (fuel : nat) (o : copts) (R : registry) (t : ty) (cur : gval) (ts :
                if kind tk =? KMapEnd then Ok (GAny (Some (TMap TAny TAny, GMap false m)), rest)
                else bind (unm f o R TAny (GAny None) ts) (fun kr =>
                     (* toComparable: a []byte key becomes a byte array *)
-                    let key := match fst kr with
-                               | GAny (Some (TBytes, GBytes _ s)) => GAny (Some (TByteArray (length s), GBytes false s))
-                               | k => k
-                               end in
+                    let key := to_comparable (fst kr) in
                     match key with
                     | GAny None => Err EBadMapKey
                     | GAny (Some (kt, kv)) =>
